@@ -140,6 +140,14 @@ PROPS = {
                    "thorough": "adds 2x2, size 3, preemption bound 3"},
         "assumptions": COMMON_ASSUME + ["threads are interleaved at visible operations only (sync/atomic, Mutex, Cond, channel, WaitGroup, time.Sleep, go); code between two visible operations of a thread is assumed not to race with other threads", "package context's own synchronisation is trusted: its operations are atomic steps", "sync.Pool (bufPool) is a LIFO free list; time.Sleep = 'time passes when nothing else can run'", "schedule counterexamples are reported from the engine's exploration (kinds assert/deadlock are engine-only for these properties: the native replay cannot force a schedule without instrumenting the diode sources)", "fewer than 2^64 ring positions are claimed in the life of a diode"],
     },
+    "C19": {
+        "groups": [{"name": "user", "tags": "verif", "run": "^VH_C19_", "flags": {"witnesses": 400}}],
+        "level": "other",
+        "witness_replays": {"quick": 400, "thorough": 400},
+        "explanation": "runtime.Caller is an engine intrinsic over gosym's own frame stack (go/ssa synthetic wrappers skipped like the runtime skips wrapper frames); the harness package is a 'user' package importing zerolog and zerolog/log. Every combination of caller mechanism (Event.Caller, Caller(k), CallerSkipFrame(k)+Caller, Context.Caller, CallerWithSkipFrameCount(2+k)), entry point (Trace..Error, Log, Err, WithLevel, Print/Printf/Println on a Logger and through package log, package-level log.Info/Error/Err, Logger.Write), finalizer (Msg, Msgf, MsgFunc, Send), presence of another hook (before/after) and wrapper depth k in 0..2 is executed; the file/line handed to CallerMarshalFunc must be the user's statement (marked with zzverif.Here() on the line before). Data are concrete: the solver has almost nothing to decide here; the value of the check is the coverage of the combination space on the real skip arithmetic, and EVERY explored path is also executed natively (go test -overlay) where the real runtime must report the same frame, which validates the intrinsic.",
+        "bounds": {"depth": "wrapper depth k <= 2; one statement per source line in the harness (multi-line call chains have compiler-specific line attribution: outside)"},
+        "assumptions": COMMON_ASSUME + ["go/ssa positions of call instructions equal the line the runtime reports for the call (checked natively on every path)"],
+    },
     "C13": {
         "groups": [
             {"name": "int", "tags": "verif", "run": "^VH_C13_(basic_step|compose)$", "flags": {"solver": "cvc5-int", "solver-timeout-ms": 120000}},
@@ -190,6 +198,12 @@ NOT_APPLICABLE = [
 ]
 
 MANIFEST_TEXT = {
+    "C19": {
+        "level_text": "Exhaustive execution of the combination space (mechanism x entry point x finalizer x hooks x wrapper depth) on the real skip-frame arithmetic with runtime.Caller modelled over the interpreter's frame stack; every path is cross-checked against the real runtime by native replay.",
+        "design_ref": "DESIGN.md §3 C19",
+        "level_note": "Level 'other': little is symbolic. Wrapper depth <= 2.",
+        "technique": "interpretation of the real go/ssa with a frame-stack model of runtime.Caller; all paths replayed natively (differential against the Go runtime)",
+    },
     "C12": {
         "level_text": "Same explorer, quiescence phase: the scheduler detects when no thread can move; at that point everything written must be delivered or reported; global deadlocks (Close not returning) are violations.",
         "design_ref": "DESIGN.md §3 C10-C12",
